@@ -121,11 +121,52 @@ void family(char const* tag)
   }
 }
 
+// ---- _1 … _15 inside the CO_ clauses (each clause macro has its own fifteen binding lines): for an eagerly started coroutine the
+// expression of the first suspension point / of the completion is evaluated during the call, and every _k in it must be the
+// caller's argument.  (Evaluation after the call has returned is known finding F12 and is not exercised here.)
+struct M15 {
+  MAKE_MOCK15(f, (Task<int, true>(int&, int&, int&, int&, int&, int&, int&, int&, int&, int&, int&, int&, int&, int&, int&)));
+};
+static bool all_alias(void const* const* seen, int const* a)
+{
+  bool ok = true;
+  for (int k = 1; k <= 15; ++k) ok = ok && seen[k] == &a[k];
+  return ok;
+}
+static void arity15()
+{
+  M15 m;
+  int a[16];
+  for (int k = 0; k < 16; ++k) a[k] = k;
+  {
+    void const* seen[16] = {};
+    REQUIRE_CALL(m, f(_, _, _, _, _, _, _, _, _, _, _, _, _, _, _)).LR_CO_RETURN((seen[1] = &_1, seen[2] = &_2, seen[3] = &_3, seen[4] = &_4, seen[5] = &_5, seen[6] = &_6, seen[7] = &_7, seen[8] = &_8, seen[9] = &_9, seen[10] = &_10, seen[11] = &_11, seen[12] = &_12, seen[13] = &_13, seen[14] = &_14, seen[15] = &_15, 7));
+    auto t = m.f(a[1], a[2], a[3], a[4], a[5], a[6], a[7], a[8], a[9], a[10], a[11], a[12], a[13], a[14], a[15]);
+    check(t.result() == 7 && all_alias(seen, a), "eager, arity 15: _1.._15 in CO_RETURN are the caller's arguments");
+  }
+  {
+    void const* seen[16] = {};
+    REQUIRE_CALL(m, f(_, _, _, _, _, _, _, _, _, _, _, _, _, _, _)).LR_CO_YIELD((seen[1] = &_1, seen[2] = &_2, seen[3] = &_3, seen[4] = &_4, seen[5] = &_5, seen[6] = &_6, seen[7] = &_7, seen[8] = &_8, seen[9] = &_9, seen[10] = &_10, seen[11] = &_11, seen[12] = &_12, seen[13] = &_13, seen[14] = &_14, seen[15] = &_15, 5)).CO_RETURN(0);
+    auto t = m.f(a[1], a[2], a[3], a[4], a[5], a[6], a[7], a[8], a[9], a[10], a[11], a[12], a[13], a[14], a[15]);
+    auto v = t.next();
+    check(v && *v == 5 && all_alias(seen, a), "eager, arity 15: _1.._15 in CO_YIELD are the caller's arguments");
+  }
+  {
+    void const* seen[16] = {};
+    REQUIRE_CALL(m, f(_, _, _, _, _, _, _, _, _, _, _, _, _, _, _)).LR_CO_THROW((seen[1] = &_1, seen[2] = &_2, seen[3] = &_3, seen[4] = &_4, seen[5] = &_5, seen[6] = &_6, seen[7] = &_7, seen[8] = &_8, seen[9] = &_9, seen[10] = &_10, seen[11] = &_11, seen[12] = &_12, seen[13] = &_13, seen[14] = &_14, seen[15] = &_15, 42));
+    auto t = m.f(a[1], a[2], a[3], a[4], a[5], a[6], a[7], a[8], a[9], a[10], a[11], a[12], a[13], a[14], a[15]);
+    int thrown = 0;
+    try { (void)t.result(); } catch (int v) { thrown = v; }
+    check(thrown == 42 && all_alias(seen, a), "eager, arity 15: _1.._15 in CO_THROW are the caller's arguments");
+  }
+}
+
 int main()
 {
   trompeloeil::set_reporter([](trompeloeil::severity, char const*, unsigned long, std::string const&) { ++reports; });
   family<false>("lazy");
   family<true>("eager");
+  arity15();
   check(reports == 0, "no report from any of the calls above");
   std::printf("DONE failed=%d\n", failed);
   return failed ? 1 : 0;
